@@ -643,6 +643,12 @@ class C13(Property):
             if exp is UNSPEC:
                 return None, None
             return '%s: normalization raised %s instead of an event validation error' % (shown, out[4:]), None
+        if isinstance(repaired, dict) and 'written' in repaired and c03.spec_verdict(dt, None, repaired['written']) is False:
+            return '%s: a writer with auto repair wrote the object %r, which is not in the value space of the type' % (
+                shown, repaired['written']), None
+        if isinstance(repaired, str) and repaired.startswith('unreadable'):
+            return '%s: a writer with auto repair accepted the event but a validating parser rejects what it wrote (%s)' % (
+                shown, repaired), None
         if exp is UNSPEC:
             # whatever comes out must at least be stable when the gate accepts it
             if isinstance(out, dict) and gate is True and again != out:
